@@ -92,7 +92,8 @@ def run(ctx):
     ctx.cov["rule"] = ("one case = one mesh instance (topology, weights, link configuration) replayed into the real builders and "
                        "validated by TLC entry by entry, or one generated float mesh validated through residual facts; non-trivial "
                        "= some link variable differs from 1 (exact) / every float mesh; distinct = distinct instances")
-    ctx.cov["float_meshes"] = [dict(label=t["label"], sites=t["sites"], edges=t["edges"], lu_of_neumann_laplacian_singular=t["lu_singular"])
+    ctx.cov["float_meshes"] = [dict(label=t["label"], sites=t["sites"], edges=t["edges"], lu_of_neumann_laplacian_singular=t["lu_singular"],
+                                    build_operators_raised_per_solver_option=t["solver_option_notes"])
                                for t in traces[nexact:]]
     ctx.assume("exact comparison: entries of the code's matrices are mapped to Gaussian rationals with denominator <= 1e6 within 1e-12; "
                "anything else is bottom and rejected")
